@@ -1171,6 +1171,27 @@ class DiskRefsContainer(RefsContainer):
                 f.abort()
             self._invalidate_packed_refs_cache()
 
+    def _remove_empty_parents(self, name: Ref) -> None:
+        """Remove the directories above a loose ref file that are now empty."""
+        parent = name
+        while True:
+            try:
+                parent_bytes, _ = parent.rsplit(b"/", 1)
+                parent = Ref(parent_bytes)
+            except ValueError:
+                break
+
+            if parent == b"refs":
+                break
+            parent_filename = self.refpath(parent)
+            try:
+                os.rmdir(parent_filename)
+            except OSError:
+                # this can be caused by the parent directory being
+                # removed by another process, being not empty, etc.
+                # in any case, this is non fatal, just ignore it
+                break
+
     def _check_packed_refs_collision(
         self, realname: Ref, filename: bytes
     ) -> dict[Ref, ObjectID]:
@@ -1273,6 +1294,36 @@ class DiskRefsContainer(RefsContainer):
         packed_refs = self._check_packed_refs_collision(realname, filename)
 
         ensure_dir_exists(os.path.dirname(filename))
+        try:
+            return self._set_if_equals_locked(
+                realname,
+                filename,
+                packed_refs,
+                old_ref,
+                new_ref,
+                committer=committer,
+                timestamp=timestamp,
+                timezone=timezone,
+                message=message,
+            )
+        finally:
+            # if nothing was written the directories created above for the
+            # lock file must not be left behind: an empty directory would
+            # block a later ref of that name
+            self._remove_empty_parents(realname)
+
+    def _set_if_equals_locked(
+        self,
+        realname: Ref,
+        filename: bytes,
+        packed_refs: dict[Ref, ObjectID],
+        old_ref: ObjectID | None,
+        new_ref: ObjectID,
+        committer: bytes | None = None,
+        timestamp: int | None = None,
+        timezone: int | None = None,
+        message: bytes | None = None,
+    ) -> bool:
         with GitFile(filename, "wb") as f:
             if old_ref is not None:
                 try:
@@ -1351,26 +1402,30 @@ class DiskRefsContainer(RefsContainer):
         packed_refs = self._check_packed_refs_collision(realname, filename)
 
         ensure_dir_exists(os.path.dirname(filename))
-        with GitFile(filename, "wb") as f:
-            if os.path.exists(filename) or name in self.get_packed_refs():
-                f.abort()
-                return False
-            try:
-                f.write(ref + b"\n")
-            except OSError:
-                f.abort()
-                raise
-            else:
-                self._log(
-                    name,
-                    None,
-                    ref,
-                    committer=committer,
-                    timestamp=timestamp,
-                    timezone=timezone,
-                    message=message,
-                )
-        return True
+        try:
+            with GitFile(filename, "wb") as f:
+                if os.path.exists(filename) or name in self.get_packed_refs():
+                    f.abort()
+                    return False
+                try:
+                    f.write(ref + b"\n")
+                except OSError:
+                    f.abort()
+                    raise
+                else:
+                    self._log(
+                        name,
+                        None,
+                        ref,
+                        committer=committer,
+                        timestamp=timestamp,
+                        timezone=timezone,
+                        message=message,
+                    )
+            return True
+        finally:
+            # see set_if_equals
+            self._remove_empty_parents(realname)
 
     def remove_if_equals(
         self,
@@ -1433,29 +1488,11 @@ class DiskRefsContainer(RefsContainer):
         finally:
             # never write, we just wanted the lock
             f.abort()
-
-        # outside of the lock, clean-up any parent directory that might now
-        # be empty. this ensures that re-creating a reference of the same
-        # name of what was previously a directory works as expected
-        parent = name
-        while True:
-            try:
-                parent_bytes, _ = parent.rsplit(b"/", 1)
-                parent = Ref(parent_bytes)
-            except ValueError:
-                break
-
-            if parent == b"refs":
-                break
-            parent_filename = self.refpath(parent)
-            try:
-                os.rmdir(parent_filename)
-            except OSError:
-                # this can be caused by the parent directory being
-                # removed by another process, being not empty, etc.
-                # in any case, this is non fatal because we already
-                # removed the reference, just ignore it
-                break
+            # outside of the lock, clean-up any parent directory that might
+            # now be empty (also when nothing was removed: the directories
+            # may only have been created for the lock file). this ensures
+            # that creating a reference named like such a directory works
+            self._remove_empty_parents(name)
 
         return True
 
